@@ -41,13 +41,13 @@ fn spec_for(prop: &str, tier: Tier) -> Option<CheckSpec> {
         }
         "C15" => {
             for ms in [1usize, 2] {
-                let depth = if thorough { 10 } else if ms == 1 { 8 } else { 7 };
+                let depth = if thorough { 10 } else if ms == 1 { 7 } else { 6 };
                 let sc = c15::C15Scenario { ms, depth };
                 let s1 = sc.clone();
                 scenarios.push(sqlite_bound(Scenario::new(&format!("sqlite/ms{}", ms), "real rusqlite :memory: connections identified by PRAGMA user_version; histories of get / interact ok / panic / panic with dropped future / return", 0, 0, move || c15::run_c15::<c15::Sqlite>(&s1))));
                 let s2 = sc.clone();
                 scenarios.push(Scenario::new(&format!("r2d2/ms{}", ms), "scripted r2d2::ManageConnection; connections may be poisoned, marked has_broken or fail is_valid", 0, 0, move || c15::run_c15::<c15::R2d2>(&s2)));
-                let s3 = c15::C15Scenario { ms, depth: if thorough { 9 } else if ms == 1 { 7 } else { 6 } };
+                let s3 = c15::C15Scenario { ms, depth: if thorough { 9 } else if ms == 1 { 6 } else { 5 } };
                 scenarios.push(sqlite_bound(Scenario::new(&format!("diesel-sqlite/ms{}", ms), "real diesel SqliteConnection :memory:; recycling methods Fast / Verified (open transaction), CustomQuery (failing query), CustomFunction (failing check); poisoned or broken connections", 0, 0, move || c15::run_c15::<c15::DieselSqlite>(&s3))));
             }
             for panic in [false, true] {
